@@ -26,8 +26,9 @@ def scratch_dir(tag):
     return os.path.join(base, f"{tag}.{os.getpid()}")
 
 
-def prepare(tag, inject=None, contracts=None):
+def prepare(tag, inject=None, contracts=None, kani_src=None):
     inject = inject or INJECT
+    kani_src = kani_src or os.path.join(VERIF, 'kani', 'src')
     d = scratch_dir(tag)
     if os.path.exists(d):
         shutil.rmtree(d)
@@ -41,7 +42,7 @@ def prepare(tag, inject=None, contracts=None):
         with open(p, 'a') as f:
             f.write('\n')
             for name, src in mods:
-                f.write(f'#[cfg(kani)] #[path = "{VERIF}/kani/src/{src}"] pub(crate) mod {name};\n')
+                f.write(f'#[cfg(kani)] #[path = "{kani_src}/{src}"] pub(crate) mod {name};\n')
     for c in (contracts or []):
         insert_attrs(os.path.join(d, c['file']), c['impl'], c['fn'], c['attrs'])
     os.makedirs(os.path.join(d, '.cargo'), exist_ok=True)
@@ -139,9 +140,10 @@ def parse_output(out):
     return res
 
 
-def run(d, harnesses, timeout_s=900, jobs=16, extra=None, package_dir='statime', default_unwind=None):
+def run(d, harnesses, timeout_s=900, jobs=None, extra=None, package_dir='statime', default_unwind=None):
     """run cargo kani for the given harness names (exact match). Returns (results, raw_output, wall)."""
-    cmd = ['cargo', 'kani', '-Z', 'function-contracts', '-Z', 'stubbing', '-j', str(jobs),
+    jobs = jobs or int(os.environ.get('VERIF_JOBS', '8'))
+    cmd = ['cargo', 'kani', '-Z', 'function-contracts', '-Z', 'stubbing', '-j', str(jobs), '--no-assertion-reach-checks',
            '--output-format', 'terse']
     if default_unwind:
         cmd += ['--default-unwind', str(default_unwind)]
